@@ -84,7 +84,7 @@ def solve_text(text, name, budget, need="unsat", both=False, backends=("z3", "cv
                     break
                 # cross-check mode: the other back ends get a short grace period to agree or disagree
                 first_t = min(times[b] for b, a in answers.items() if a in ("sat", "unsat"))
-                if time.time() - t0 > first_t + CROSS_GRACE:
+                if time.time() - t0 > first_t + min(CROSS_GRACE, max(0.5, 3 * first_t)):
                     break
             if procs:
                 time.sleep(0.004)
